@@ -167,6 +167,20 @@ def version_route(F, R):
 def setter_from(F, R, b, name, setter_pat, want_fields, arg_idx=1, root=None, key=None, announced=False, exact=True):
     sites = [(bi, t) for bi, t in b.calls_to(setter_pat)]
     hit = []
+    # the limit may be installed by building the codec with it (`Codec::with_inbound_limits(size, ..)` spliced in): the
+    # aggregate's field takes the place of the setter's argument
+    fld_ = {'set_max_inbound_size': 'max_in_size', 'set_max_size': 'max_size'}.get(setter_pat.rstrip('$').split('::')[-1])
+    if not sites and fld_:
+        import c05
+        for bi, j, s_ in agg_sites(b, r'^v[35]::codec::codec::Codec$'):
+            nm_ = s_['rv'].get('names') or []
+            if fld_ in nm_:
+                names = c05.origin_field_names(F, b, s_['rv']['fields'][nm_.index(fld_)], re.compile(TRANSPARENT_CALLS.pattern[:-2] + r'|new|map_or|min|unwrap_or|get)$'))
+                if set(want_fields) <= names:
+                    R.ob('C19.limits', key or name, True, '', b.loc(bi))
+                    R.ob('C19.limits', (key or name) + '|stored-as-negotiated', True, '', b.loc(bi))
+                    R.ob('C19.limits', (key or name) + '|unconditional', True, 'the codec is created with the value', b.loc(bi))
+                    return [bi]
     for bi, t in sites:
         ap = apath(b, t['args'][arg_idx]) or ()
         og = None
